@@ -45,6 +45,19 @@ def _cases(tier):
     for d in (1, 2, 3):
         yield (f"nested{d}", T.nested_depth(d), x, {})
     yield ("two-nested", T.two_nested(), x, {})
+    # gates as the failing node (route with fallback, ifelse), targets downstream
+    e = {"e0": ["prov", "e0"]}
+    for fb in (None, "pq"):
+        r = T.route3(True, fallback=fb)
+        r["nodes"][1]["behav"] = {"seq": ["p"]}
+        yield ("route-fallback" if fb else "route", r, e, {})
+    d = T.diamond_ifelse(True)
+    d["nodes"][1]["behav"] = {"seq": [True]}
+    yield ("ifelse", d, e, {})
+    # graph-level selection overridden at run time: partial values follow the effective selection
+    ch3 = T.prog([T.fn("na", ["e0"], ["a0"]), T.fn("nb", ["a0"], ["b0"]), T.fn("nc", ["b0"], ["c0"])], select=["c0"])
+    yield ("select-override", ch3, e, {"select": "**"})
+    yield ("select-override-list", ch3, e, {"select": ["a0", "c0"]})
     yield ("nested-fanout", T.nested_fanout(), {"e0": ["prov", "e0"]}, {})
     yield ("mapping-node", T.mapped_node(), {"e0": ["prov", "e0"], "x": [["i", 0], ["i", 1]]}, {})
     yield ("runner.map", c15.map_item_graph(True), {"x": [["i", 0], ["i", 1], ["i", 2]]}, {"method": "map", "map_over": "x"})
@@ -57,7 +70,7 @@ def shards(tier, seed):
 
 
 def _fault_sets(prog, family):
-    nids = [s["id"] for s in T.all_specs(prog) if s["kind"] == "fn"]
+    nids = [s["id"] for s in T.all_specs(prog) if s["kind"] in ("fn", "ifelse", "route")]
     for n in nids:
         yield frozenset([(n, None)])
     for a, b in itertools.combinations(nids, 2):
@@ -171,6 +184,11 @@ def judge(prog, extra, eh, x, ref_values, is_map):
                 out.append(({"symptom": "partial-value-wrong"}, f"FAILED values contain {k}={jsonable(v)}, fault-free run has {jsonable(ref_values.get(k))}"))
         if fstep is not None:
             gouts = set(fstep.graph.outputs)
+            sel = extra.get("select")
+            if isinstance(sel, list):
+                gouts &= set(sel)
+            elif sel is None and prog.get("select") is not None:
+                gouts &= set(prog["select"])
             for k, v in fstep.pre_values.items():
                 if k in gouts and k not in vals:
                     out.append(({"symptom": "completed-value-missing"}, f"value {k} completed in an earlier step is missing from the FAILED result"))
